@@ -117,8 +117,8 @@ def specScenario (env : Env) (s : State) (σ : KG.Spec.LocalLimiter.SState) (r :
 
 def cls (b : Bool) (c : String) : List String := if b then [] else [c]
 
-/-- a request that reached an upstream -/
-def judgeForwarded (env : Env) (s : State) (σ : KG.Spec.LocalLimiter.SState) (r : Request) (o : Obs) : List String :=
+/-- a request that reached an upstream: every stage must have passed (C10, C12/C02, C01, C03, C05/C06) -/
+def judgeStages (env : Env) (s : State) (σ : KG.Spec.LocalLimiter.SState) (r : Request) (o : Obs) : List String :=
   cls (decide (o.nUp = 1)) "gw.forward-count" ++
   (match r.info with
    | none => ["gw.forwarded.no-request-info"]
@@ -138,11 +138,17 @@ def judgeForwarded (env : Env) (s : State) (σ : KG.Spec.LocalLimiter.SState) (r
              cls ((upstreamsOf cl i).contains o.endpoint) "gw.endpoint.not-of-first-matching-policy" ++
              cls ((Model.Endpoints.serverNames cl.cfg.servers).contains o.endpoint) "gw.endpoint.not-a-server" ++
              cls (eligible cl o.endpoint) "gw.endpoint.not-ready" ++
-             cls (admits s σ cl.cfg.name (schemaOf cl i) r.now) "gw.admitted-over-limit"))) ++
-  (let v := KG.Spec.Forward.reqVerdict r.toForward o.up
-   cls v.method "gw.fidelity.method" ++ cls v.host "gw.fidelity.host" ++ cls v.body "gw.fidelity.body" ++
-   cls v.pathDecoded "gw.fidelity.path-decoded" ++ cls v.pathExact "gw.fidelity.path-exact" ++ cls v.query "gw.fidelity.query" ++
-   cls v.headers "gw.fidelity.headers")
+             cls (admits s σ cl.cfg.name (schemaOf cl i) r.now) "gw.admitted-over-limit")))
+
+/-- … and what it received must be the client's request (C04's per-part judges) -/
+def judgeFidelity (r : Request) (o : Obs) : List String :=
+  let v := KG.Spec.Forward.reqVerdict r.toForward o.up
+  cls v.method "gw.fidelity.method" ++ cls v.host "gw.fidelity.host" ++ cls v.body "gw.fidelity.body" ++
+  cls v.pathDecoded "gw.fidelity.path-decoded" ++ cls v.pathExact "gw.fidelity.path-exact" ++ cls v.query "gw.fidelity.query" ++
+  cls v.headers "gw.fidelity.headers"
+
+def judgeForwarded (env : Env) (s : State) (σ : KG.Spec.LocalLimiter.SState) (r : Request) (o : Obs) : List String :=
+  judgeStages env s σ r o ++ judgeFidelity r o
 
 /-- a request no upstream received: it must be the row of the first failing stage -/
 def judgeAnswered (env : Env) (s : State) (σ : KG.Spec.LocalLimiter.SState) (r : Request) (o : Obs) : List String :=
